@@ -58,6 +58,9 @@ type Parser struct {
 	curToken  token.Token
 	peekToken token.Token
 
+	// illegalToken is the first illegal token that the lexer produced
+	illegalToken *token.Token
+
 	prefixParseFns map[token.TokenType]prefixParseFn
 	infixParseFns  map[token.TokenType]infixParseFn
 
@@ -143,6 +146,15 @@ func (p *Parser) ParseProgram() *ast.Program {
 		prog.Statements = append(prog.Statements, stmt)
 
 		p.nextToken() // skip to next token
+	}
+
+	if p.illegalToken != nil && len(p.errors) == 0 {
+		p.newError(
+			p.illegalToken.ErrorLine(),
+			fail.ErrIllegalToken,
+			p.illegalToken.Literal,
+		)
+		return nil
 	}
 
 	prog.Components = p.components
@@ -281,6 +293,13 @@ func (p *Parser) newError(line uint, msg string, args ...any) {
 func (p *Parser) nextToken() {
 	p.curToken = p.peekToken
 	p.peekToken = p.l.NextToken()
+
+	// remember the first illegal token: it is an error wherever it stands,
+	// also where a name is taken from the tokens without looking at its type
+	if p.illegalToken == nil && p.peekTokenIs(token.ILLEGAL) {
+		tok := p.peekToken
+		p.illegalToken = &tok
+	}
 }
 
 func (p *Parser) parseIdentifier() ast.Expression {
